@@ -551,7 +551,43 @@ def rule_is_set(ctx):
     ctx.floor('C14-R7', n, 6, 'is-set tests of optional numeric fields')
 
 
+def rule_cursor(ctx):
+    """R8: query results are lazy generators over a database cursor; each query
+    must iterate a cursor of its own, created in the call that runs the query —
+    a cursor kept on the Database object is shared iteration state, and a second
+    query silently truncates or mixes the rows of the first."""
+    prog = ctx.prog
+    dbm = prog.module('missions/database.py')
+    fi = dbm.func('Database.__call__')
+    ex = [c for c in calls_in(fi.node) if isinstance(c.func, ast.Attribute) and c.func.attr == 'execute']
+    yr = [c for c in calls_in(fi.node) if call_name(c) == 'self._yield_results']
+    n = 0
+    for c in ex + yr:
+        recv = c.func.value if c in ex else (c.args[0] if c.args else None)
+        n += 1
+        ok = False
+        why = 'the cursor is not a fresh local of this call'
+        if isinstance(recv, ast.Name):
+            d = single_def_value(fi.node, recv.id)
+            ok = isinstance(d, ast.Call) and call_name(d) == 'self._conn.cursor'
+            why = f'{recv.id} = self._conn.cursor() created for this query' if ok else why
+        elif recv is not None:
+            why = f'`{norm(recv)}` lives on the Database object and is shared by every query issued through it'
+        ctx.ob('C14-R8', fi, f'query runs on cursor `{norm(recv) if recv is not None else "?"}`', ok, why, line=c.lineno)
+    ctx.floor('C14-R8', n, 2, 'cursor uses in Database.__call__')
+    r = [st for st in walk_no_nested(fi.node) if isinstance(st, ast.Assign) and isinstance(st.targets[0], ast.Tuple)
+         and [norm(e) for e in st.targets[0].elts] == ['sql', 'params']]
+    ok = len(r) == 1 and norm(r[0].value) == 'query.to_sql()'
+    ctx.ob('C14-R8', fi, 'SQL and parameters come from one to_sql() call', ok, 'sql, params = query.to_sql()' if ok else
+           'SQL text and parameters are not taken from the same to_sql() call', nontrivial=False)
+    yf = dbm.func('Database._yield_results')
+    src = ' '.join(norm(s_) for s_ in yf.node.body)
+    ok = 'for row in cur.execute(sql, params)' in src and 'yield result_type.from_row(row)' in src
+    ctx.ob('C14-R8', yf, 'every row is converted by the query\'s own result type', ok, 'result_type.from_row(row)' if ok else 'row conversion changed', nontrivial=False)
+
+
 def run(ctx):
+    rule_cursor(ctx)
     rule_is_set(ctx)
     rule_pure(ctx)
     rule_unpack(ctx)
